@@ -276,9 +276,9 @@ Proof.
 Qed.
 
 Lemma sv_no_panic p o r :
-  validate_sv p = Ok -> sv_op_wf o -> sv_path p o = Some r -> res_outcome r <> Abort.
+  validate_sv p = Ok -> sv_small p -> sv_op_wf o -> sv_path p o = Some r -> res_outcome r <> Abort.
 Proof.
-  intros Hv Hwf Hp.
+  intros Hv Hsm Hwf Hp.
   destruct (validate_sv_facts p Hv) as (s & t & Hm & Hs & Hsr & Ht & Htr & Hd).
   assert (Hnp : forall w, r <> Panic w); [|destruct r; simpl; try discriminate; exfalso; eapply Hnp; reflexivity].
   intros w.
@@ -286,8 +286,14 @@ Proof.
   - (* bind *)
     unfold sv_bind. simpl in Hwf. cbv zeta.
     assert (0 <= price * sv_mult p) by (apply Z.mul_nonneg_nonneg; lia).
+    assert (Hio : int_ok (price * sv_mult p) = true).
+    { unfold int_ok. apply Z.ltb_lt. rewrite Z.abs_eq by assumption. unfold sv_small in Hsm.
+      assert (price * sv_mult p <= two192 * 2 ^ 63).
+      { apply Z.mul_le_mono_nonneg; lia. }
+      assert (two192 * 2 ^ 63 < two256) by (vm_compute; reflexivity). lia. }
     destruct (negb (sv_base p =? 1)); [discriminate|].
     destruct (_ <? qos); [discriminate|].
+    rewrite Hio. cbn [negb].
     destruct (price * sv_mult p <? 0) eqn:En; [lia|].
     repeat match goal with |- context [if ?c then _ else _] => destruct c end; discriminate.
   - (* call *)
@@ -309,6 +315,16 @@ Proof.
       destruct (dec_truncate_int (d * s) <? 0) eqn:E1; [lia|reflexivity]. }
     rewrite Hw0. change (0 =? 0) with true. cbv iota. exact (IH Hrest).
 Qed.
+
+Definition sv_big : sv_params :=
+  mkSv 100 (2 ^ 62) [mkCoin 1 (Some 5000)] (Some 50000000000000000) (Some 1000000000000000) 1296000000000000 432000000000000 4000 1 false.
+
+(** the same bind under the defaults is an ordinary rejection *)
+Lemma sv_refuted :
+  validate_sv sv_big = Ok /\ sv_small sv_big
+  /\ sv_path sv_big (SvBind (2 ^ 200) 5000 3 1000000) = Some (Panic 402)
+  /\ sv_path sv_defaults (SvBind (2 ^ 200) 5000 3 1000000) = Some Reject.
+Proof. repeat split; vm_compute; reflexivity. Qed.
 
 (** *** token *)
 Lemma validate_tk_facts p :
@@ -516,14 +532,14 @@ Proof. exact defaults_validate_lemma. Qed.
 Lemma init_small : ps_small ps_init.
 Proof.
   split; [vm_compute; reflexivity|]. split; [vm_compute; reflexivity|]. split; [vm_compute; reflexivity|].
-  exact (Forall_nil _).
+  split; [exact (Forall_nil _)|vm_compute; reflexivity].
 Qed.
 
 Lemma step_keeps_small s st : step_wf st -> ps_small s -> ps_small (pstep_state s st).
 Proof.
-  intros Hwf (H1 & H2 & H3 & H4).
+  intros Hwf (H1 & H2 & H3 & H4 & H5).
   destruct st; simpl in *; unfold ps_small; simpl; repeat split; try assumption;
-    unfold update_cs, update_fm, update_tk, update_ht; apply update_keeps; auto.
+    unfold update_cs, update_fm, update_tk, update_ht, update_sv; apply update_keeps; auto.
 Qed.
 
 Lemma run_keeps_small h : forall s, Forall step_wf h -> ps_small s -> ps_small (run s h).
@@ -537,7 +553,7 @@ Qed.
 Lemma op_no_abort s st r :
   ps_valid s -> ps_small s -> step_wf st -> op_result s st = Some r -> res_outcome r <> Abort.
 Proof.
-  intros (V1 & V2 & V3 & V4 & V5) (S1 & S2 & S3 & S4) Hwf Hr.
+  intros (V1 & V2 & V3 & V4 & V5) (S1 & S2 & S3 & S4 & S5) Hwf Hr.
   destruct st; simpl in Hr; try discriminate Hr; simpl in Hwf.
   - eapply cs_no_panic; eassumption.
   - eapply fm_no_panic; eassumption.
